@@ -19,6 +19,24 @@ import os as _os
 COVER = {}
 
 
+_INT_TYPES = {"unsigned int": (32, False), "unsigned": (32, False), "unsigned long": (64, False), "size_t": (64, False), "std::size_t": (64, False),
+              "unsigned long long": (64, False), "int": (32, True), "long": (64, True), "long long": (64, True), "short": (16, True),
+              "unsigned short": (16, False), "unsigned char": (8, False), "std::ptrdiff_t": (64, True), "ptrdiff_t": (64, True)}
+
+
+def int_conversion(v, t):
+    """value of converting the integer v to the integer type t (modular for unsigned, wrap-around for the signed types as
+    every supported ABI implements it); None when t is not an integer type"""
+    t0 = (t or "").replace("const ", "").replace("&", "").strip()
+    if t0 not in _INT_TYPES:
+        return None
+    bits, signed = _INT_TYPES[t0]
+    w = v & ((1 << bits) - 1)
+    if signed and w >= (1 << (bits - 1)):
+        w -= 1 << bits
+    return w
+
+
 def cover(e, outcome, fr):
     if e.get("k") in ("Bin",) and e.get("op") in ("&&", "||"):
         return  # operands are recorded separately
@@ -382,7 +400,12 @@ class Interp:
                 return self.eval(e["a"], fr)
             return self.eval(e["b"], fr)
         if k == "Cast":
-            return self.dom.cast(self.rvalue(e["e"], fr), e["t"], e, fr)
+            v = self.rvalue(e["e"], fr)
+            if isinstance(v, int) and not isinstance(v, bool):
+                w = int_conversion(v, e["t"])
+                if w is not None:
+                    return w
+            return self.dom.cast(v, e["t"], e, fr)
         if k in ("Call", "OpCall", "Construct"):
             return self.eval_call(e, fr)
         if k == "Index":
